@@ -295,6 +295,9 @@ class Engine:
                     rmse, vl, cl
                 )
                 dNl = np.maximum(0, Ns - Nl)
+                # the variance of the level just added is only extrapolated: an extrapolated 0 would leave the level
+                # without a single sample (and end the run without any decision): it gets the initial sample size at least
+                dNl[-1] = max(dNl[-1], self.configuration.initial_mc_paths)
                 sum_cost = np.append(sum_cost, 0.0)
 
                 next_process = copy.deepcopy(ml_processes[-1])
